@@ -221,7 +221,16 @@ fn pick_policy(r: &mut Rng) -> PolicySet {
 fn insert_history<K: Kern<D>, const D: usize>(cx: &mut Ctx, r: &mut Rng, idx: usize) {
     let hi = max_coord(D);
     let g = GUARANTEES[idx % 3];
-    cx.start_case(format!("C02 hist D={D} k={} g={g:?} i={idx}", K::NAME));
+    // every fourth history lives at a small length scale (lattice unit 2^-10): points just outside the duplicate
+    // tolerance of a vertex are then INSIDE the tolerance band of the fast predicates
+    let small_scale = (idx / 2) % 4 == 1; // both kernels (the kernel alternates with idx)
+    cx.tr.s = if small_scale { -10 } else { 0 };
+    cx.start_case(format!("C02 hist D={D} k={} g={g:?} i={idx} s={}", K::NAME, cx.tr.s));
+    insert_history_body::<K, D>(cx, r, idx, hi, g, small_scale);
+    cx.tr.s = 0;
+}
+
+fn insert_history_body<K: Kern<D>, const D: usize>(cx: &mut Ctx, r: &mut Rng, idx: usize, hi: i64, g: TopologyGuarantee, small_scale: bool) {
     // start: empty, or constructed from a few points
     let from_constructed = idx % 4 == 3;
     let fam = (idx / 4) % 4;
@@ -313,15 +322,91 @@ fn insert_history<K: Kern<D>, const D: usize>(cx: &mut Ctx, r: &mut Rng, idx: us
             }
         }
     }
-    if let Some(u) = us.first() {
-        let mut c = dt.clone();
-        let n = cx.fresh_uuid();
-        crate::ops2::op_clone(&mut cx.tr, 0, 1, &dt);
-        op_insert_copy(&mut cx.tr, 1, &mut c, *u, "farcopy", n, false);
+    // points just OUTSIDE the duplicate tolerance of a vertex (each on a fresh clone): never duplicates, and whatever
+    // happens the result is a valid triangulation or no change
+    let kinds: &[&'static str] = if small_scale { &["farcopy", "farcopy27", "farcopy24"] } else { &["farcopy"] };
+    for (i, u) in us.iter().enumerate().take(if small_scale { 6 } else { 1 }) {
+        for kind in kinds {
+            let mut c = dt.clone();
+            let n = cx.fresh_uuid();
+            crate::ops2::op_clone(&mut cx.tr, 0, 1, &dt);
+            op_insert_copy(&mut cx.tr, 1, &mut c, *u, kind, n, i % 2 == 1);
+        }
     }
 }
 
+/// a minimal complex at a small length scale: one simplex with one (or two) interior vertices; then points just
+/// outside the duplicate tolerance of an interior vertex - inside the tolerance band of every circumsphere around it
+fn near_vertex_case<K: Kern<D>, const D: usize>(cx: &mut Ctx, r: &mut Rng, idx: usize) {
+    let g = GUARANTEES[idx % 3];
+    let s = [-10, -10, -12, -8][idx % 4];
+    cx.tr.s = s;
+    cx.start_case(format!("C02 nearvertex D={D} k={} g={g:?} i={idx} s={s}", K::NAME));
+    let mut pts: Vec<Vec<i64>> = vec![vec![0; D]];
+    for j in 0..D {
+        let mut p = vec![0i64; D];
+        p[j] = 8;
+        pts.push(p);
+    }
+    pts.push(vec![if D == 2 { 2 } else { 1 }; D]);
+    if idx % 2 == 1 {
+        let mut p = vec![1i64; D];
+        p[0] = 2;
+        p[D - 1] = if D == 2 { 3 } else { 2 };
+        pts.push(p);
+    }
+    let mut dt = op_empty::<K, D>(&mut cx.tr, 0, g);
+    match (idx / 2) % 4 {
+        1 => {
+            op_set_policy(&mut cx.tr, 0, &mut dt, PolicySet::Validation(ValidationPolicy::Never));
+        }
+        2 => {
+            op_set_policy(&mut cx.tr, 0, &mut dt, PolicySet::Validation(ValidationPolicy::DebugOnly));
+        }
+        3 => {
+            op_set_policy(&mut cx.tr, 0, &mut dt, PolicySet::Repair(DelaunayRepairPolicy::Never));
+        }
+        _ => {}
+    }
+    let mut uu = Vec::new();
+    for p in &pts {
+        let v = VIn::lattice(cx.fresh_uuid(), p.clone(), Some(1));
+        if !op_insert(&mut cx.tr, 0, &mut dt, &v, false) {
+            cx.tr.s = 0;
+            return;
+        }
+        uu.push(v.uuid);
+    }
+    let _ = r;
+    for u in uu.iter().skip(D + 1) {
+        for (j, kind) in ["farcopy27", "farcopy", "farcopy24"].into_iter().enumerate() {
+            let mut c = dt.clone();
+            let n = cx.fresh_uuid();
+            crate::ops2::op_clone(&mut cx.tr, 0, 1, &dt);
+            if !op_insert_copy(&mut cx.tr, 1, &mut c, *u, kind, n, (idx + j) % 2 == 1) {
+                cx.tr.s = 0;
+                return;
+            }
+            // and the triangulation stays usable
+            let far: Vec<i64> = (0..D).map(|t| if t == 0 { 3 } else { 1 }).collect();
+            let v = VIn::lattice(cx.fresh_uuid(), far, Some(2));
+            op_insert(&mut cx.tr, 1, &mut c, &v, false);
+        }
+    }
+    cx.tr.s = 0;
+}
+
 pub fn drive_insert(cx: &mut Ctx) {
+    for d in 2..=5usize {
+        for i in 0..(if cx.thorough { 48 } else { 16 }) {
+            let mut r = Rng::new(cx.seed * 7_000_019 + (d * 100_000 + i) as u64);
+            if !cx.mine() {
+                continue;
+            }
+            let k = (i / 8) % 2;
+            dispatch!(d, k, near_vertex_case(cx, &mut r, i));
+        }
+    }
     let per_dim = if cx.thorough { 120 } else { 16 };
     for d in 2..=5usize {
         for i in 0..per_dim {
@@ -430,12 +515,47 @@ fn flip_case<K: Kern<D>, const D: usize>(cx: &mut Ctx, r: &mut Rng, idx: usize) 
         let input = cx.inputs(&pts, true);
         let s = cx.tr.s;
         let vs: Vec<_> = input.iter().map(|v| v.vertex::<D>(s)).collect();
-        let Ok(d0) = Dt::<K, D>::with_topology_guarantee(&K::default(), &vs, g) else { return };
+        let Ok(mut d0) = Dt::<K, D>::with_topology_guarantee(&K::default(), &vs, g) else { return };
+        // recycled storage slots: remove a vertex, insert two new ones (the first takes the freed slot)
+        if idx % 4 != 3 {
+            let victims: Vec<_> = d0.vertices().map(|(_, v)| *v).collect();
+            let v = *r.pick(&victims);
+            let _ = d0.remove_vertex(&v);
+            for _ in 0..2 {
+                let p: Vec<i64> = (0..D).map(|_| r.range(0, 200)).collect();
+                let _ = d0.insert(VIn::lattice(cx.fresh_uuid(), p, Some(7)).vertex::<D>(s));
+            }
+            if d0.as_triangulation().validate().is_err() {
+                return;
+            }
+        }
         let post = cx.tr.project(&d0);
         cx.tr.emit("Adopt", 0, serde_json::json!({"D": D, "why": "wide-coordinate base for combinatorial flip checks"}), serde_json::json!({}), Some(post), false);
         d0
     } else {
-        let Some(d0) = build_base::<K, D>(cx, &pts, g) else { return };
+        let Some(mut d0) = build_base::<K, D>(cx, &pts, g) else { return };
+        // recycled storage slots (logged calls): remove a vertex, insert two new ones
+        if idx % 3 != 0 {
+            let victims: Vec<_> = d0.vertices().map(|(_, v)| v.uuid()).collect();
+            let u = *r.pick(&victims);
+            if !op_remove(&mut cx.tr, 0, &mut d0, u) {
+                return;
+            }
+            let hi = max_coord(D);
+            for _ in 0..2 {
+                let p: Vec<i64> = (0..D).map(|_| r.range(0, hi)).collect();
+                if pts.contains(&p) {
+                    continue;
+                }
+                let v = VIn::lattice(cx.fresh_uuid(), p, Some(7));
+                if !op_insert(&mut cx.tr, 0, &mut d0, &v, false) {
+                    return;
+                }
+            }
+            if d0.number_of_cells() == 0 {
+                return;
+            }
+        }
         d0
     };
     let stale_cell: Option<CellKey> = None;
